@@ -470,3 +470,11 @@ def check(ctx: Ctx) -> None:
     r3(ctx)
     r4(ctx)
     r5r6(ctx)
+    # bounds are keyed by field id: they describe the right column only if appends cannot re-number ids (C11.R1)
+    from .c11 import r1 as c11_r1
+    n0 = len(ctx.obs)
+    c11_r1(ctx)
+    for o in ctx.obs[n0:]:
+        o.rule = "C13.R7"
+    ctx.rule_text["C13.R7"] = ctx.rule_text.pop("C11.R1")
+    ctx.floors["C13.R7"] = ctx.floors.pop("C11.R1")
